@@ -14,6 +14,19 @@ def run (args : List String) : String :=
       | .ok t =>
         let go := match goType t with | some s => s | none => "PANIC"
         s!"ok sig={toHex (print t)} idl={idlName t} go={go.replace " " "_"}"
+  | ["sig.deep", shape, n] =>
+    let k := n.toNat!
+    let inp : Bytes := match shape with
+      | "list" => List.replicate k 91 ++ [105] ++ List.replicate k 93
+      | "map" => (List.replicate k [123, 105]).flatten ++ [105] ++ List.replicate k 125
+      | "open" => List.replicate k 91
+      | "shut" => List.replicate k 93 ++ List.replicate k 91 ++ [105] ++ List.replicate k 93
+      | _ => []
+    -- beyond the bound the answer is the guard's (Props/C09.too_deep_refused): the parser is not asked
+    if nesting inp > maxDepth then "err" else
+    match parseSig inp with
+    | .error e => errStr e
+    | .ok t => if print t == inp then "ok" else "ok-other-signature"
   | _ => "bad-op"
 
 end QiVerif.Driver.C09
